@@ -427,9 +427,13 @@ static uint64_t sweep_one(const SweepCfg & c, uint64_t seed, int nev, std::strin
         for (double eps : {-1e-9, 1e-9}) {
           double v = c.thr[k] + eps;
           if (!(v > 0 && v < 1)) continue;
-          t.reseed(seed, ++stream);
-          t.pin(cell, v);
-          shoot();
+          // several tapes per steered branch: what follows the steered draw (conversion or pair, rejection loops) is decided by later
+          // deviates - a sub-branch taken by a quarter of the decays that reach the branch should be entered on every thread
+          for (int rep = 0; rep < 16; rep++) {
+            t.reseed(seed, ++stream);
+            t.pin(cell, v);
+            shoot();
+          }
         }
   } catch (std::exception & x) {
     err = x.what();
@@ -464,6 +468,7 @@ static int run_sweep(uint64_t seed, int nthreads, const char * specfile, int nev
   const int n = (int)cfgs.size();
   std::atomic<int> ready{0};
   std::atomic<bool> go{false};
+  std::atomic<int> barrier_count{0};
   std::vector<std::vector<uint64_t>> got(nthreads, std::vector<uint64_t>(n, 0));
   std::vector<std::vector<std::string>> goterr(nthreads, std::vector<std::string>(n));
   std::vector<std::thread> th;
@@ -472,11 +477,22 @@ static int run_sweep(uint64_t seed, int nthreads, const char * specfile, int nev
       t_id = t;
       ready++;
       while (!go.load()) std::this_thread::yield();
+      // first pass: all threads enter the SAME configuration together (a barrier before each one).  ThreadSanitizer orders accesses by
+      // happens-before: when the threads visit a scheme at different times, any release/acquire pair in between - the guard of a
+      // function-local static initialised by one thread and met by the other, a mutex - orders the two visits and hides a race between
+      // them.  Inside one barrier window nothing does.
       for (int k = 0; k < n; k++) {
-        // thread 0 walks forwards, thread 1 backwards, the others start at staggered offsets: every configuration is run by
-        // every thread, and neighbouring threads are inside the same scheme at about the same time at least once
+        int arrived = ++barrier_count;
+        while (barrier_count.load() < (k + 1) * nthreads) std::this_thread::yield();
+        (void)arrived;
+        got[t][k] = sweep_one(cfgs[k], seed, nev, goterr[t][k]);
+      }
+      // second pass: thread 0 walks forwards, thread 1 backwards, the others start at staggered offsets (different schemes side by side)
+      for (int k = 0; k < n; k++) {
         int j = (t % 2 == 0) ? (k + (t / 2) * 3) % n : (n - 1 - ((k + (t / 2) * 3) % n));
-        got[t][j] = sweep_one(cfgs[j], seed, nev, goterr[t][j]);
+        std::string e2;
+        uint64_t h2 = sweep_one(cfgs[j], seed, nev, e2);
+        if (h2 != got[t][j] || e2 != goterr[t][j]) got[t][j] = h2 ^ 0x5a5a5a5aULL; // a stream that differs between the passes differs from thread 0's too
       }
     });
   }
